@@ -36,8 +36,8 @@ struct Content {
     std::string descs = "short";       // description variant
     bool locks = false; bool analogGroupEmpty = false; int valueSet = 0; int gapWord = 10;
     // hooks used by the C12 pattern files
-    std::function<uint32_t(int, int, int)> ptFn, anFn; std::vector<GParam> customParams; std::vector<uint32_t> eventTimes; bool haveRateBits = false; uint32_t rateBits = 0;
-    int lastOverride = -1; bool blankLabel = false; bool reservedNonZero = false; bool longNames = false; int keyLabel = 0, firstKeyBlock = 0; bool noDataStart = false; int padBlocks = 0; std::string optParams = "std";   // std | minimal (no POINT:DESCRIPTIONS/UNITS, no ANALOG:UNITS) | rich (ANALOG:DESCRIPTIONS too)
+    std::function<uint32_t(int, int, int)> ptFn, anFn; std::vector<GParam> customParams; std::vector<uint32_t> eventTimes; bool haveRateBits = false; uint32_t rateBits = 0; bool haveHeaderRateBits = false; uint32_t headerRateBits = 0;   // header words 11-12 when they are to differ from POINT:RATE
+    int lastOverride = -1; bool blankLabel = false; bool reservedNonZero = false; bool longNames = false; int keyLabel = 0, firstKeyBlock = 0; bool noDataStart = false; int padBlocks = 0; std::string optParams = "std";   // std | minimal (no POINT:DESCRIPTIONS/UNITS, no ANALOG:UNITS/SCALE/OFFSET: what a float file can do without) | rich (ANALOG:DESCRIPTIONS too)
 };
 struct Layout {
     int zeros = 0; bool zeroPrologue = false; int paramBlock = 2; std::string order = "default"; std::string ids = "dense"; bool lastOffsetZero = false; bool lowerNames = false;
@@ -74,8 +74,8 @@ inline std::vector<GGroup> buildGroups(const Content& c, const Layout& l) {
         if (!(c.optParams == "nolabels" && c.nChans == 0))
         {   int n = std::max(0, c.nChans + c.alabelsDelta); std::vector<std::string> v; for (int i = 0; i < n; ++i) v.push_back(chLabel(i)); A.params.push_back(GParam::strs("LABELS", 4, {n}, v)); }
         A.params.push_back(GParam::floats("GEN_SCALE", {}, {f2b(1.0f)}));
-        { std::vector<uint32_t> v; for (int i = 0; i < c.nChans; ++i) v.push_back(f2b(1.0f + (float)i)); A.params.push_back(GParam::floats("SCALE", {c.nChans}, v)); }
-        { std::vector<int> v; for (int i = 0; i < c.nChans; ++i) v.push_back(-i * 7); A.params.push_back(GParam::ints("OFFSET", {c.nChans}, v)); }
+        if (c.optParams != "minimal") { std::vector<uint32_t> v; for (int i = 0; i < c.nChans; ++i) v.push_back(f2b(1.0f + (float)i)); A.params.push_back(GParam::floats("SCALE", {c.nChans}, v)); }
+        if (c.optParams != "minimal") { std::vector<int> v; for (int i = 0; i < c.nChans; ++i) v.push_back(-i * 7); A.params.push_back(GParam::ints("OFFSET", {c.nChans}, v)); }
         if (c.optParams != "minimal") { std::vector<std::string> v; for (int i = 0; i < c.nChans; ++i) v.push_back("V"); A.params.push_back(GParam::strs("UNITS", 4, {c.nChans}, v)); }
         if (c.optParams == "rich") { std::vector<std::string> v; for (int i = 0; i < c.nChans; ++i) v.push_back("chan " + std::to_string(i)); A.params.push_back(GParam::strs("DESCRIPTIONS", 7, {c.nChans}, v)); }
         A.params.push_back(GParam::floats("RATE", {}, {f2b(c.analogRate)}, true, D("analog rate")));
@@ -147,7 +147,7 @@ inline std::string encode(const Content& c, const Layout& l) {
     int dataBlock = l.paramBlock + nBlocks;     // 1-based
     if (dataStartAt) { ps[dataStartAt] = (char)(dataBlock & 0xff); ps[dataStartAt + 1] = (char)((dataBlock >> 8) & 0xff); }
     std::string h; p8(h, l.paramBlock); p8(h, 0x50); p16(h, c.nPoints); p16(h, c.nChans * c.spf); p16(h, c.first); p16(h, c.lastOverride >= 0 ? c.lastOverride : c.first + c.nFrames - 1); p16(h, c.gapWord);
-    p32(h, c.scaleBits); p16(h, dataBlock); p16(h, c.spf); p32(h, c.haveRateBits ? c.rateBits : f2b(c.pointRate));
+    p32(h, c.scaleBits); p16(h, dataBlock); p16(h, c.spf); p32(h, c.haveHeaderRateBits ? c.headerRateBits : c.haveRateBits ? c.rateBits : f2b(c.pointRate));
     while (h.size() < 294) p8(h, c.reservedNonZero ? (int)(0x34 + h.size() * 7) : 0);   // reserved words 13..147
     p16(h, c.keyLabel); p16(h, c.firstKeyBlock); p16(h, 0x3039); p16(h, c.nEvents); p16(h, 0);
     for (int i = 0; i < 18; ++i) p32(h, (size_t)i < c.eventTimes.size() ? c.eventTimes[(size_t)i] : i < c.nEvents ? f2b(0.5f + (float)i * 1.25f) : 0);
